@@ -221,6 +221,12 @@ pub fn apply(d: &mut Vec<u8>, m: &Mutation) {
 pub fn client_addr(sock: u32) -> std::net::SocketAddr {
     // one socket in thirteen sits at the edges of the address / port space (injective in `sock`
     // below 30000: the third octet fixes sock / 200, the port the rest)
+    // sockets 40000..40255: datagrams from source port 0 (a raw socket can send them, Linux
+    // delivers them, and nothing can be sent back: sendto() to port 0 fails with EINVAL)
+    if (40_000..40_256).contains(&sock) {
+        let ip = std::net::Ipv4Addr::new(10, 77, 0, (sock - 40_000) as u8);
+        return std::net::SocketAddr::new(std::net::IpAddr::V4(ip), 0);
+    }
     if sock % 13 == 7 && sock < 30_000 {
         let ip = std::net::Ipv4Addr::new(223, 255, (sock / 200) as u8, 255);
         return std::net::SocketAddr::new(std::net::IpAddr::V4(ip), 65_535 - (sock % 200) as u16 * 256);
